@@ -942,7 +942,7 @@ func (r *c22Run) classify(a *c22Attempt, plan *c22Plan, msg string) error {
 
 // classifyProfile judges a clause (3) violation for snap name; it returns nil
 // when the violation is a known finding and the enumeration can go on (the
-// snap stays out of sync and is not judged again until it is set up anew).
+// recorded view of the snap is then brought in line with the repository).
 func (r *c22Run) classifyProfile(a *c22Attempt, plan *c22Plan, name, msg string) error {
 	st := r.st()
 	st.Lock()
@@ -998,6 +998,11 @@ func (r *c22Run) classifyProfile(a *c22Attempt, plan *c22Plan, name, msg string)
 	}
 	if verifkit.IsKnown("C22", fp) {
 		r.o.Extra["known_"+fp]++
+		// go on as if the profile had been regenerated, so that the known
+		// finding does not mask clause (3) for this snap from here on
+		r.be.mu.Lock()
+		r.be.view[name] = c22SortedIDs(refs)
+		r.be.mu.Unlock()
 		return nil
 	}
 	return verifkit.Knownf(fp, "%s", msg)
